@@ -150,6 +150,10 @@ class Engine(GenericConcreteEngine[Callable[..., Any]]):
                     return transfer.reapply(operation.apply(target)), True, ()
                 else:
                     upstream, done, messages = target.engine.backtrack_unary(operation, target, preferred)
+                    if upstream is target:
+                        # Nothing was inserted: keep this transfer (and any
+                        # payload already attached to it) as it is.
+                        return (tree, done, messages)
                     return (transfer.reapply(upstream), done, messages)
         raise NotImplementedError(f"Unsupported relation type {tree} for engine {self}.")
 
